@@ -270,6 +270,7 @@ def run(rep, facts, tier):
     import re as _re
     n_fl = 0
     wrong_floor = []
+    own_height = [False]
     for bb in cc.reachable_blocks():
         br = bool_branch(cc, bb)
         c = cmp_of(br[0]) if br else None
@@ -281,13 +282,24 @@ def run(rep, facts, tier):
             continue
         n_fl += 1
         fl = sb if 'ds_len' in sb else sa
-        if not _re.fullmatch(r'\(\*arg\d+\)\.ctx\.ds_len', fl):
+        # the block's own base: its floor, or (a nested block inherits the outer floor) the height at which it was opened
+        own = _re.fullmatch(r'\(\*arg\d+\)\.ctx\.ds_len', fl) or \
+            (_re.search(r'\(\*arg\d+\)\.ctx\.ds_open', fl) and not _re.search(r'(prev|nested)', fl))
+        if not own:
             wrong_floor.append(fl[:50])
+        elif 'ds_open' in fl:
+            own_height[0] = True
     rep.add('C11.R1', 'C11.R1:context_close:results-above-own-floor', bool(n_fl) and not wrong_floor,
             'the emission loop runs while depth > ctx.ds_len of the closing context' if n_fl and not wrong_floor else
             'context_close compares the depth with %s, not with the floor of the block that is closing: under eval the enclosing floor is 0 and '
             'the loop pops values earlier sources left (`3`, then `#( 1 2 + #) +` fails with StackUnderflow)' % (wrong_floor or ['nothing']),
             cc.name, cc.j['span'])
+    # a nested block inherits the outer floor (known finding above), so 'above the floor' is the OUTER block's whole stack: the
+    # emission has to stop at the height at which this block was opened
+    rep.add('C11.R1', 'C11.R1:context_close:nested-block-emits-its-own-results', own_height[0],
+            'the emission loop stops at max(floor, height at open)' if own_height[0] else
+            'context_close turns everything above ctx.ds_len into literals: for a block nested in a meta block that is the enclosing block\'s '
+            'stack as well (`#( 7 [ #( 1 #) ] #)` gives [ 1 7 ])', cc.name, cc.j['span'])
     # ... and the decision is 'is anything open?', not 'is a definition open?': with a vector, if, loop or case open the enclosing
     # block is assembling code as well (`#( [ #( 1 #) 2 ] #)` gave [ 2 ] and a stray 1).  The only construct that wants the value on
     # the stack is the enum builder
